@@ -170,12 +170,10 @@ class _Inline(_InternalNode):
         inner_renames: Dict[str, str] = {}
         inner_node_renames: Dict[str, str] = {}
 
-        def reserve_prefixed(name: str) -> str:
+        def reserve_prefixed(space, name: str) -> str:
             if not name:
                 return name
-            return scope.var.reserve(
-                scope.var.maybe_enum(f"{scope.node[self]}__{name}")
-            )
+            return space.reserve(space.maybe_enum(f"{scope.node[self]}__{name}"))
 
         def apply_rename(name: str) -> str:
             if name in input_names:
@@ -183,12 +181,12 @@ class _Inline(_InternalNode):
             if name in output_names:
                 return scope.var[self.outputs.outputs[output_names[name]]]
             if name not in inner_renames:
-                inner_renames[name] = reserve_prefixed(name)
+                inner_renames[name] = reserve_prefixed(scope.var, name)
             return inner_renames[name]
 
         def apply_node_rename(name: str) -> str:
             if name not in inner_node_renames:
-                inner_node_renames[name] = reserve_prefixed(name)
+                inner_node_renames[name] = reserve_prefixed(scope.node, name)
             return inner_node_renames[name]
 
         graph = rename_in_graph(self.graph, apply_rename, rename_node=apply_node_rename)
